@@ -305,13 +305,8 @@ def load_known(prop):
     kf_path = os.path.join(VERIF, 'known_findings.json')
     known = json.load(open(kf_path)) if os.path.exists(kf_path) else {'findings': []}
     items = list(known.get('findings', []))
-    d = os.path.join(VERIF, 'known')          # per-property fragments (merged into the single file by tools/merge_known.py)
-    if os.path.isdir(d):
-        for fn in sorted(os.listdir(d)):
-            if fn.endswith('.json'):
-                frag = json.load(open(os.path.join(d, fn)))
-                if isinstance(frag, dict):
-                    items += frag.get('findings', [])
+    # known/Cnn.json are the per-property SOURCES of that file (tools/merge_known.py); only the merged,
+    # committed file is consulted at run time
     return {k['key']: k for k in items if k.get('property') == prop and k.get('status', 'known') == 'known'}
 
 
